@@ -15,6 +15,8 @@ pub const MAX_WORKERS: usize = 64;
 
 pub struct Inflight {
     file: Mutex<std::fs::File>,
+    /// start of each worker's in-flight run (for the in-child watchdog)
+    started: Mutex<Vec<Option<std::time::Instant>>>,
 }
 
 impl Inflight {
@@ -27,7 +29,7 @@ impl Inflight {
             .open(path)
             .expect("inflight file");
         f.write_all(&vec![b' '; SLOT_LEN * MAX_WORKERS]).unwrap();
-        Inflight { file: Mutex::new(f) }
+        Inflight { file: Mutex::new(f), started: Mutex::new(vec![None; MAX_WORKERS]) }
     }
 
     pub fn publish(&self, worker: usize, world: &str, seed: u64) {
@@ -37,12 +39,33 @@ impl Inflight {
             s.push(' ');
         }
         s.push('\n');
+        self.started.lock().unwrap()[worker % MAX_WORKERS] = Some(std::time::Instant::now());
         let mut f = self.file.lock().unwrap();
         let _ = f.seek(SeekFrom::Start(((worker % MAX_WORKERS) * SLOT_LEN) as u64));
         let _ = f.write_all(s.as_bytes());
     }
 
+    /// longest time any in-flight run has been executing (seconds)
+    pub fn longest_inflight_s(&self) -> u64 {
+        self.started.lock().unwrap().iter().flatten().map(|t| t.elapsed().as_secs()).max().unwrap_or(0)
+    }
+
+    /// keep only the entries of runs that have been executing for at least `min_s` seconds
+    pub fn keep_only_slow(&self, min_s: u64) {
+        let st = self.started.lock().unwrap().clone();
+        for (w, t) in st.iter().enumerate() {
+            if !matches!(t, Some(t) if t.elapsed().as_secs() >= min_s) {
+                let mut s = " ".repeat(SLOT_LEN - 1);
+                s.push('\n');
+                let mut f = self.file.lock().unwrap();
+                let _ = f.seek(SeekFrom::Start((w * SLOT_LEN) as u64));
+                let _ = f.write_all(s.as_bytes());
+            }
+        }
+    }
+
     pub fn clear(&self, worker: usize) {
+        self.started.lock().unwrap()[worker % MAX_WORKERS] = None;
         let mut s = " ".repeat(SLOT_LEN - 1);
         s.push('\n');
         let mut f = self.file.lock().unwrap();
